@@ -43,6 +43,7 @@ class FnSpec:
         self.attrs = []         # extra attribute lines (assumptions, e.g. external_body)
         self.ret = "r"
         self.nobody = False     # replace body by unimplemented!() (with external_body)
+        self.mutself = False    # R10: `mut self` receiver -> `self` + `let mut self_ = self;` + rename in body
         self.line = 0
 
 
@@ -57,7 +58,7 @@ class Section:
         self.opts = {}
 
 
-CLAUSE_RE = re.compile(r"^(itername|requires|ensures|invariant|invariant_except_break|loop_ensures|decreases|recommends|opens_invariants|no_unwind|returns_clause)(@(\d+))?(\[([^\]]*)\])?\s*(.*)$")
+CLAUSE_RE = re.compile(r"^(itername|desugar|requires|ensures|invariant|invariant_except_break|loop_ensures|decreases|recommends|opens_invariants|no_unwind|returns_clause)(@(\d+))?(\[([^\]]*)\])?\s*(.*)$")
 
 
 SHORT = [(re.compile(r"\bnew\(([A-Za-z_][A-Za-z0-9_.]*)\)"), r"(*final(\1))"), (re.compile(r"\bpre\(([A-Za-z_][A-Za-z0-9_.]*)\)"), r"(*old(\1))"), (re.compile(r"\bcur\(([A-Za-z_][A-Za-z0-9_.]*)\)"), r"(*\1)")]
@@ -128,7 +129,12 @@ def parse_spec(path):
             cur_fn = None
             continue
         if s.startswith("@impl"):
-            sec = Section("impl", " ".join(s[len("@impl"):].split()), ln)
+            hdr = s[len("@impl"):]
+            newhdr = None
+            if " => " in hdr:
+                hdr, newhdr = hdr.split(" => ", 1)
+            sec = Section("impl", " ".join(hdr.split()), ln)
+            sec.opts["as"] = newhdr.strip() if newhdr else None
             container().children.append(sec)
             stack.append(sec)
             cur_fn = None
@@ -153,6 +159,8 @@ def parse_spec(path):
                     f.auto = [x for x in v.split(",") if x]
                 elif k == "ret":
                     f.ret = v
+                elif k == "mutself":
+                    f.mutself = True
                 elif k == "external_body":
                     f.attrs.append("#[verifier::external_body]")
                     f.nobody = False
@@ -301,6 +309,81 @@ def invert_named_return(tt):
     return out
 
 
+def desugar_for_loops(body, clauses, qual):
+    """R7: `for PAT in EXPR { B }` -> `let mut V = EXPR; loop { match V.next() { None => break, Some(PAT) => { B } } }`
+    (the language-defined desugaring of `for`, modulo the implicit IntoIterator::into_iter on an Iterator,
+    which is the identity).  Applied to the K-th loop of the body; line structure is preserved."""
+    for c in sorted(clauses, key=lambda c: -c["loop"]):
+        toks = lex(body)
+        pair = match_delims(toks)
+        loops = Gen.find_loops_toks(toks, pair, 0, len(toks) - 1)
+        k = c["loop"]
+        if k < 1 or k > len(loops):
+            raise ExtractError("lost anchor: %s has %d loops, desugar refers to loop %d" % (qual, len(loops), k))
+        lkw, lbrace = loops[k - 1]
+        if toks[lkw].text != "for":
+            raise ExtractError("lost anchor: loop %d of %s is not a `for`" % (k, qual))
+        j = lkw + 1
+        while not (toks[j].text == "in" and toks[j].kind == "ident"):
+            j = pair[j] + 1 if toks[j].text in ("(", "[", "{") else j + 1
+        pat = body[toks[lkw + 1].start:toks[j - 1].end]
+        expr = body[toks[j + 1].start:toks[lbrace - 1].end]
+        v = c["text"].strip()
+        close = pair[lbrace]
+        head = "let mut %s = %s; loop { match %s.next() { None => break, Some(%s) => {" % (v, expr, v, pat)
+        body = body[:toks[lkw].start] + head + body[toks[lbrace].end:toks[close].start] + "} } }" + body[toks[close].end:]
+    return body
+
+
+def invert_desugar(tt, names):
+    """token-level inverse of R7 (independent of desugar_for_loops)"""
+    out = list(tt)
+    for v in names:
+        i = 0
+        while i < len(out) - 3:
+            if out[i] == "let" and out[i + 1] == "mut" and out[i + 2] == v and out[i + 3] == "=":
+                j = i + 4
+                depth = 0
+                while not (out[j] == ";" and depth == 0):
+                    if out[j] in "([{":
+                        depth += 1
+                    elif out[j] in ")]}":
+                        depth -= 1
+                    j += 1
+                expr = out[i + 4:j]
+                hdr = ["loop", "{", "match", v, ".", "next", "(", ")", "{", "None", "=>", "break", ",", "Some", "("]
+                if out[j + 1:j + 1 + len(hdr)] != hdr:
+                    raise ExtractError("R7 inverse: unexpected shape after `let mut %s`" % v)
+                k = j + 1 + len(hdr)
+                depth = 1
+                p0 = k
+                while depth:
+                    if out[k] in "([{":
+                        depth += 1
+                    elif out[k] in ")]}":
+                        depth -= 1
+                    k += 1
+                pat = out[p0:k - 1]
+                if out[k:k + 2] != ["=>", "{"]:
+                    raise ExtractError("R7 inverse: `=> {` expected")
+                b0 = k + 2
+                depth = 1
+                k = b0
+                while depth:
+                    if out[k] in "([{":
+                        depth += 1
+                    elif out[k] in ")]}":
+                        depth -= 1
+                    k += 1
+                inner = out[b0:k - 1]
+                if out[k:k + 2] != ["}", "}"]:
+                    raise ExtractError("R7 inverse: closing braces expected")
+                out = out[:i] + ["for"] + pat + ["in"] + expr + ["{"] + inner + ["}"] + out[k + 2:]
+                break
+            i += 1
+    return out
+
+
 def expected_tokens(src_text, rewrites, r1, const_rw=None):
     """independent computation of what the generated item must tokenise to"""
     text = src_text
@@ -343,8 +426,10 @@ def check_rewrite_allowed(rule, a, b):
         # (checked structurally by the driver's rule table; accepted only for the listed site)
         return
     if rule == "R9":
-        # expr ? on a `&mut` temp: `match x { A => e1, B => e2 }?;` unchanged.  reserved
-        raise ExtractError("rewrite R9 is not enabled")
+        # inherent-impl form of an external-trait impl: `Self::Item` is replaced by the impl's `type Item`
+        if ta != ["Self", "::", "Item"]:
+            raise ExtractError("rewrite R9 only replaces `Self::Item`")
+        return
     raise ExtractError("unknown rewrite rule %s" % rule)
 
 
@@ -378,6 +463,10 @@ class Gen:
         for l in text.split("\n"):
             self.emit(indent + l.rstrip() + G, ("ghost", cid))
         return start, len(self.out)
+
+    def emit_src_lines(self, sf, text, line0):
+        for k, l in enumerate(text.split("\n")):
+            self.emit(l, ("src", sf.rel, line0 + k))
 
     def emit_src_text(self, sf, text, byte_start):
         """emit source text (possibly rewritten; line structure preserved) with origin mapping"""
@@ -508,6 +597,15 @@ class Gen:
             # private fn -> pub
             kwb = toks[it.vis_lo].start - b0
             sig = sig[:kwb] + "pub " + sig[kwb:]
+        for (rule, a, b) in rewrites:
+            if a in sig:
+                sig = sig.replace(a, b)
+        mutself = bool(fs and fs.mutself)
+        if mutself:
+            if not re.search(r"\(\s*mut\s+self\b", sig):
+                raise ExtractError("lost anchor: %s has no `mut self` receiver (R10)" % qual)
+            sig = re.sub(r"\(\s*mut\s+self\b", "(self", sig, count=1)
+            self.rule_uses.append(("R10", qual))
         # R8 named return
         ret = fs.ret if fs else "r"
         has_ens = fs is not None and any(c["kind"] in ("ensures", "returns_clause") for c in fs.clauses)
@@ -556,11 +654,32 @@ class Gen:
                              "tags": sorted(fn_tags), "src": "%s:%d" % (sf.rel, sf.line_of(b0)), "has_body": False, "clauses": clause_ids})
             return
         # body with injections -------------------------------------------------------------
-        body_lo, body_hi = it.body
-        bb0, bb1 = toks[body_lo].start, toks[body_hi].end
+        g_body_lo, g_body_hi = it.body
+        bb0, bb1 = toks[g_body_lo].start, toks[g_body_hi].end
         body = sf.text[bb0:bb1]
-        inserts = []   # (byte offset relative to bb0, order, ghost text, cid)
-        loops = self.find_loops(sf, body_lo, body_hi)
+        body_line0 = sf.line_of(bb0)
+        desug = [c for c in (fs.clauses if fs else []) if c["kind"] == "desugar"]
+        if desug:
+            body = desugar_for_loops(body, desug, qual)
+            self.rule_uses.append(("R7", qual))
+        if mutself:
+            bt = lex(body)
+            outb, prev = [], 0
+            for t in bt:
+                if t.kind == "ident" and t.text == "self":
+                    outb.append(body[prev:t.start] + "self_")
+                    prev = t.end
+            outb.append(body[prev:])
+            body = "".join(outb)
+            assert body.startswith("{")
+            body = "{ let mut self_ = self;" + body[1:]
+        # from here on: tokens of the (possibly desugared) body text, positions relative to it
+        toks = lex(body)
+        pair = match_delims(toks)
+        bb0 = 0
+        body_lo, body_hi = 0, len(toks) - 1
+        inserts = []   # (byte offset relative to body, order, ghost text, cid)
+        loops = self.find_loops_toks(toks, pair, body_lo, body_hi)
         if fs:
             loop_groups = {}
             for c in fs.clauses:
@@ -575,6 +694,7 @@ class Gen:
                 bykind = {}
                 for c in cl:
                     bykind.setdefault(c["kind"], []).append(c)
+                bykind.pop("desugar", None)
                 if "itername" in bykind:
                     # `for PAT in EXPR`  ->  `for PAT in it: EXPR`   (ghost name of the loop's iterator)
                     j = lkw + 1
@@ -622,10 +742,10 @@ class Gen:
         segs = []
         prev = 0
         for (pos, _o, lines, mode) in inserts:
-            segs.append(("src", body[prev:pos], bb0 + prev))
+            segs.append(("src", body[prev:pos], prev))
             segs.append(("ghost", lines, mode))
             prev = pos
-        segs.append(("src", body[prev:], bb0 + prev))
+        segs.append(("src", body[prev:], prev))
         # emit
         pending = ""     # partial source line not yet emitted
         pend_byte = None
@@ -647,7 +767,7 @@ class Gen:
                     txt = pending.rstrip(" \t")
                     if txt.endswith("\n"):
                         txt = txt[:-1]
-                    self.emit_src_text(sf, txt, pend_byte)
+                    self.emit_src_lines(sf, txt, body_line0 + body[:pend_byte].count("\n"))
                 pending, pend_byte = "", None
                 for (l, cid) in seg[1]:
                     s, e = self.emit_ghost(l, cid, indent + "        ")
@@ -662,14 +782,17 @@ class Gen:
             if txt.startswith("\n"):
                 txt = txt[1:]
                 pend_byte += 1
-            self.emit_src_text(sf, txt, pend_byte)
+            self.emit_src_lines(sf, txt, body_line0 + body[:pend_byte].count("\n"))
         for n, rw in enumerate(rewrites):
             if n not in used_rewrites and rw[1] not in sig_src:
                 raise ExtractError("lost anchor: rewrite source text not found in %s: %s" % (qual, rw[1]))
             self.rule_uses.append((rw[0], qual))
         self.emit("//@item-end %s" % qual, ("glue",))
-        exp = expected_tokens(sf.text[b0:bb1], rewrites, True)
-        self.items_check.append((qual, start, len(self.out), exp, "R8" if has_ens else None))
+        exp = expected_tokens(sf.text[b0:sf.toks[g_body_hi].end], rewrites, True)
+        rule = ("R7:" + ",".join(c["text"].strip() for c in desug)) if desug else ("R8" if has_ens else None)
+        if mutself:
+            rule = "R10|" + (rule or "")
+        self.items_check.append((qual, start, len(self.out), exp, rule))
         # hints inherit the function's tags
         for cid in clause_ids:
             if self.clauses[cid]["kind"] == "hint":
@@ -728,8 +851,11 @@ class Gen:
 
     @staticmethod
     def find_loops(sf, body_lo, body_hi):
+        return Gen.find_loops_toks(sf.toks, sf.pair, body_lo, body_hi)
+
+    @staticmethod
+    def find_loops_toks(toks, pair, body_lo, body_hi):
         """loops in textual order: (keyword token idx, body `{` idx)"""
-        toks, pair = sf.toks, sf.pair
         out = []
         i = body_lo + 1
         while i < body_hi:
@@ -760,7 +886,14 @@ class Gen:
         lo = it.attrs[0][0] if it.attrs else it.vis_lo
         b0 = toks[lo].start
         hdr_text = sf.text[b0:toks[it.body[0]].end]
-        self.emit_src_text(sf, hdr_text, b0)
+        if sec.opts.get("as"):
+            # R9: a trait impl of an external trait is emitted as an inherent impl (methods verbatim)
+            self.emit(sec.opts["as"] + " {", ("src", sf.rel, sf.line_of(b0)))
+            self.rule_uses.append(("R9", "%s::%s" % (modpath, owner)))
+            is_trait_impl = False
+            owner = self.owner_name(" ".join(tok_texts(sec.opts["as"])))
+        else:
+            self.emit_src_text(sf, hdr_text, b0)
         wanted = [c for c in sec.children]
         names = [c.arg for c in wanted if c.kind == "fn"]
         for c in wanted:
@@ -770,6 +903,15 @@ class Gen:
                 cand = [s for s in subs if s.kind == "fn" and s.name == c.arg]
                 if len(cand) != 1:
                     raise ExtractError("lost anchor: fn %s in impl `%s` (%s)" % (c.arg, sec.arg, sf.rel))
+                if sec.opts.get("as"):
+                    ty = [x for x in subs if x.kind == "type" and x.name == "Item"]
+                    if ty:
+                        tt = sf.text[toks[ty[0].kw].start:toks[ty[0].hi - 1].end]
+                        item_ty = tt.split("=", 1)[1].rstrip(";").strip()
+                        if c.fn is None:
+                            c.fn = FnSpec(c.arg)
+                        if not any(r[0] == "R9" for r in c.fn.rewrites):
+                            c.fn.rewrites.append(("R9", "Self::Item", item_ty))
                 self.gen_fn(modpath, sf, cand[0], c.fn, owner, in_trait_impl=is_trait_impl, indent="    ")
             elif c.kind == "item":
                 kind, name = c.arg
@@ -1067,8 +1209,24 @@ def identity_check(g):
         lines = g.out[s - 1:e]
         kept = [l for l in lines if not l.rstrip().endswith("//@g") and not l.startswith("//@item-")]
         tt = strip_vis(tok_texts("\n".join(kept)))
+        if rule and rule.startswith("R10|"):
+            rule = rule[4:] or None
+            pro = ["let", "mut", "self_", "=", "self", ";"]
+            for i in range(len(tt) - len(pro)):
+                if tt[i:i + len(pro)] == pro:
+                    tt = tt[:i] + tt[i + len(pro):]
+                    break
+            else:
+                raise ExtractError("R10 inverse: prologue not found in %s" % iid)
+            tt = ["self" if t == "self_" else t for t in tt]
+            for i in range(len(tt) - 1):
+                if tt[i] == "(" and tt[i + 1] == "self":
+                    tt = tt[:i + 1] + ["mut"] + tt[i + 1:]
+                    break
         if rule == "R2":
             tt = [t for t in tt if t != "exec"]
+        if rule and rule.startswith("R7:"):
+            tt = invert_desugar(tt, rule[3:].split(","))
         tt = invert_named_return(tt)
         exp2 = invert_named_return(exp)
         if tt != exp2:
